@@ -6,64 +6,64 @@ BASELINE = "cd /repo && env -u TRIMESH_VERIF /venv/bin/python -m pytest -ra -q -
 
 T = {
  "C01": ("history + reference model: differential of every public value against a freshly rebuilt mesh after each mutator, cache-read probe",
-         "Held on the enumerated (reads-before, mutator, reads-after) histories: every dynamically discovered cached/plain value and query answer of the mutated mesh equals a fresh reconstruction; cache-probe shows the reads after mutation were served from a non-empty cache.",
+         "Held on the enumerated (reads-before, mutator, reads-after) histories: every dynamically discovered cached/plain value and query answer of the mutated mesh equals a fresh reconstruction, and the arrays after a mutator equal those of the same history without reads; cache-probe shows the reads after mutation were served from a non-empty cache. Ill-conditioned values (decided by calibration twins) are counted, not judged. Open: merge_vertices uses cached normals.",
          "2/C01"),
  "C02": ("history + reference model: non-perturbing hash peek vs hash of bytes after every step of enumerated numpy programs",
          "Held on all programs of length <=2 per dtype, all view/hash/write templates, and sampled programs to length 4 (quick) / 6 (thorough), except the listed open findings (numpy write routes that bypass the subclass, aliasing views).",
          "2/C02"),
  "C03": ("independent oracle: exact Fraction tetrahedron-decomposition integrals on integer-coordinate closed meshes",
-         "Held on generated integer-coordinate closed meshes: volume, centre of mass, inertia, frame inertia, density linearity and overrides agree with exact rational integrals within a computed rounding bound.",
+         "Held on generated integer-coordinate closed meshes (placements down to 1e-6 units) and on read / copy / edit histories over families of cache-sharing copies: volume, centre of mass, inertia (about the stated or overridden centre), frame inertia, density linearity agree with exact rational integrals within a computed rounding bound.",
          "2/C03"),
  "C04": ("independent oracle: homogeneous multiplication of pre-transform snapshots and the stated laws over geometry kinds x matrix classes",
          "Held on the matrix classes x geometry kinds table observed; each law (points, inverse, composition, winding, volume, centre of mass, area, inertia) checked on snapshots.",
          "2/C04"),
  "C05": ("independent oracle: dict/tuple counting on raw faces, exhaustive small face arrays + random soups, both engines",
-         "Held on every (n,3) face array over <=4 vertices and n<=2 (quick) / n<=3 (thorough) plus generated meshes and soups.",
+         "Held on every (n,3) face array over <=4 vertices and n<=2 (quick) / n<=3 (thorough) plus generated meshes and soups, with read order, primer reads and the way the mesh arrived at its faces (direct / inverted with a warm cache) varied per case; closed meshes also inside vertex arrays with unreferenced vertices.",
          "2/C05"),
  "C06": ("independent oracle: Python dict keyed by tuples of unbounded ints; threshold-straddling magnitudes, collision partners, exhaustive small arrays",
          "Held on generated integer/float rows around every packing threshold and exhaustive short sequences for blocks/merge_runs/group etc.",
          "2/C06"),
  "C07": ("provenance tagging: unique ids on every face and vertex followed through each re-indexing operation",
-         "Held on tagged meshes through every re-indexing operation and option grid observed.",
+         "Held on tagged meshes through every re-indexing operation and option grid observed: masks of every integer dtype, colour states reached by assignment or by a history, magnitudes up to 1e15, operations that return meshes run as steps of a caller's history.",
          "2/C07"),
  "C08": ("round-trip differential through a per-format quantiser; export immutability by hash and bytes",
          "Held on the format x option x geometry-class table observed.",
          "2/C08"),
  "C09": ("history + reference model: dict forest vs SceneGraph after every operation; icontract invariants on EnforcedForest",
-         "Held on all enumerated short histories and random histories to length 12, queries at every position.",
+         "Held on all enumerated short histories and random histories to length 12, queries at every position; caller-owned buffers overwritten after every update, single-precision edges judged inside the repair band, edge lists loaded into already queried graphs.",
          "2/C09"),
  "C10": ("independent oracle: explicit placement of every instance with world matrices from the reference forest",
-         "Held on generated scenes and edit histories for every scene-level quantity and derived scene.",
+         "Held on generated scenes (exact, single-precision and nanometre-unit regimes) and edit histories for every scene-level quantity and derived scene, incl. two-step derivations, shared geometry objects and copy-then-edit.",
          "2/C10"),
  "C11": ("independent oracle: exact per-triangle clipping (Fractions) giving expected segments and positive-side area; special plane placements",
-         "Held on meshes x planes incl. all sign patterns; section segments, slice areas, cap volumes and watertightness.",
+         "Held on meshes x planes incl. all sign patterns, near-vertex planes, short normals, sub-grid sections, face subsets (index and boolean) alone and with several planes, and call histories on one mesh; section segments, slice areas, cap volumes and watertightness.",
          "2/C11"),
  "C12": ("independent oracle: brute force over all triangles with a general-position filter; solid-angle winding number; project-and-clamp closest point",
-         "Held on generated meshes x rays/points for both engines at the scale classes not listed as findings.",
+         "Held on generated meshes (incl. zero-area faces inside the face list) x rays/points (incl. short directions, repeated and converging rays) and query-edit-query histories for both engines at the scale classes not listed as findings.",
          "2/C12"),
  "C13": ("reference model: the dense numpy array; class-chain x read table; exhaustive short sequences for run-length codecs",
-         "Held on every 0/1 sequence to length 12 (16 thorough), long runs per count dtype, encoding chains x reads, VoxelGrid maps and binvox round trip.",
+         "Held on every 0/1 sequence to length 12 (16 thorough), long runs per count dtype (uint8..uint64), encoding chains x reads x read histories (again / base after view), VoxelGrid maps with query-move-query, binvox round trip incl. non-cubic grids.",
          "2/C13"),
  "C14": ("metamorphic + exact oracle: shoelace area/perimeter in Fractions; presentation invariance; differential against fresh path after transforms",
-         "Held on generated drawings x presentations x transforms x reads, and DXF/SVG/dict round trips.",
+         "Held on generated drawings (incl. horseshoe curves with curves in their bays) x presentations x transforms (incl. negative apply_scale, drawings scaled to 1e-9) x reads, and DXF/SVG/dict round trips.",
          "2/C14"),
  "C15": ("independent oracle: closed forms of inscribed tessellations, bounded monotone convergence, exact inertia; primitive edit histories vs fresh primitive",
-         "Held on creation functions x parameter grids x placements and primitive edit sequences.",
+         "Held on creation functions x parameter grids x placements and primitive edit sequences (incl. parameters trading values, hash twins, caller-owned buffers).",
          "2/C15"),
  "C16": ("independent oracle: half-space containment, recomputed convexity, rigid OBB laws, Welzl minimal sphere",
-         "Held on point-set classes x bounding volumes observed; minimality judged where the minimal sphere has 4 support points.",
+         "Held on point-set classes x bounding volumes observed and on move / copy / edit histories; minimality judged where the minimal sphere has 4 support points.",
          "2/C16"),
  "C17": ("history + deep snapshots + object-graph aliasing walker",
-         "Held on geometry kinds x copy routes x edits of either side.",
+         "Held on geometry kinds x states (fresh, warm, reached by a history before the copy) x copy routes x edits of either side; shared writable arrays found by the walker are confirmed by writing through them.",
          "2/C17"),
  "C18": ("independent oracle: invariants before/after; all re-winding subsets of small solids enumerated",
-         "Held on subdivision, normal repair over every re-winding subset of small solids, and hole filling cases.",
+         "Held on subdivision, normal repair (method, function, process(validate=True), constructor) over every re-winding subset of small solids in units from 1 down to 3e-6, and hole filling cases incl. meshes that arrive through query + invert.",
          "2/C18"),
  "C19": ("independent oracle: elementary rotations per convention, textbook quaternion algebra, explicit homogeneous products",
-         "Held on 24 conventions x angle grids incl. gimbal, quaternion / axis-angle / compose-decompose round trips.",
+         "Held on 24 conventions x angle grids incl. gimbal, quaternion / axis-angle / compose-decompose round trips; results of conversions are the caller's (same arguments twice, first result edited).",
          "2/C19"),
  "C20": ("fault injection + process monitor: mutated exporter output loaded in resource-limited children; open-file monitor",
-         "Every enumerated fault (truncations, substitutions, field inflation, chunk ops, splices, noise) over each loader ended in geometry or an ordinary exception within CPU/memory bounds with all self-opened files closed.",
+         "Every enumerated fault (truncations, substitutions, field inflation, chunk ops, splices, noise, repeated blocks, zip members re-packed, id copies, JSON slot faults, asset references redirected) over each loader and entry point (file object, name, name + type, pathlib; multi-file models with their companions) ended in geometry or an ordinary exception within CPU/memory bounds with all self-opened files closed, except the listed open findings.",
          "2/C20"),
 }
 LEVEL = {"C20": "fault_enumeration"}
